@@ -16,7 +16,7 @@ package checks
 // ids), bitmap sizes, font extents, every line metric, Describe, the same glyph queries at three variation settings and
 // with a ppem, and HarfbuzzShaper.Shape of a 6-rune string in both directions.
 // Oracle: no panic (keyed by the innermost repository frame), no hang (watchdog), no worker death, and
-// bytes allocated during the case <= 64 MiB + 256 x len(file) (runtime/metrics, single-threaded worker);
+// bytes allocated during the case <= min(64 MiB + 256 x len(file), 3 GiB) (runtime/metrics, single-threaded worker);
 // RLIMIT_AS turns an unbounded allocation into a journalled worker death keyed by its repository frame.
 
 import (
@@ -184,6 +184,15 @@ func c09positions(b []byte, dir []c09table, full, dirOnly, quick bool) (pos []in
 }
 
 var c09allocSample = []metrics.Sample{{Name: "/gc/heap/allocs:bytes"}}
+
+// c09budget is the allocation law: 64 MiB + 256 x len(file), at most 3 GiB
+func c09budget(fileLen int) uint64 {
+	b := uint64(64<<20 + 256*fileLen)
+	if b > 3<<30 {
+		b = 3 << 30
+	}
+	return b
+}
 
 func c09allocated() uint64 {
 	metrics.Read(c09allocSample)
@@ -378,7 +387,7 @@ func c09monitor() {
 			}
 		}
 		// the eager decoding of GSUB/GPOS is one class, wherever the sample falls
-		for _, fn := range []string{"tables.ParseLayout(", "font.newGSUB(", "font.newGPOS("} {
+		for _, fn := range []string{"tables.ParseLayout(", "tables.ParseGDEF(", "font.newGSUB(", "font.newGPOS("} {
 			if strings.Contains(st, fn) {
 				site = c09layoutClass
 			}
@@ -387,7 +396,7 @@ func c09monitor() {
 	}
 }
 
-const c09layoutClass = "GSUB/GPOS script-feature-lookup lists (overlapping offsets)"
+const c09layoutClass = "GSUB/GPOS/GDEF lists decoded eagerly (overlapping offsets)"
 
 func (e *c09env) one(b []byte, cs *c09case, fileLen int) {
 	r := e.r
@@ -405,7 +414,7 @@ func (e *c09env) one(b []byte, cs *c09case, fileLen int) {
 	t0 := time.Now()
 	if !e.noMonitor {
 		c09monCase.Store(cs)
-		c09monLimit.Store(before + 2*uint64(64<<20+256*fileLen))
+		c09monLimit.Store(before + 2*c09budget(fileLen))
 	}
 	ok := r.Guard("C09", cs, func() { e.drive(b) })
 	c09monLimit.Store(0)
@@ -416,14 +425,8 @@ func (e *c09env) one(b []byte, cs *c09case, fileLen int) {
 			fmt.Fprintf(os.Stderr, "SLOW %v %s %s off=%d val=%#x a=%d b=%d alloc=%d\n", d, cs.File, cs.Kind, cs.Off, cs.Val, cs.A, cs.B, after-before)
 		}
 	}
-	if budget := uint64(64<<20 + 256*fileLen); ok && after-before > budget {
+	if budget := c09budget(fileLen); ok && after-before > budget {
 		site := e.allocSite(b)
-		for _, list := range []string{"ParseScript", "ParseLangSys", "ParseFeature", "ParseLookup", "parseLookupList", "(*ScriptList).parseScripts", "(*Script).parseLangSys", "(*FeatureList).parseFeatures"} {
-			if site == "font/opentype/tables."+list {
-				// one class: the script, feature and lookup lists of GSUB/GPOS are copied eagerly, record by record, even when the offsets of the records overlap
-				site = c09layoutClass
-			}
-		}
 		r.Violation("C09:alloc@"+site, cs, fmt.Sprintf("%s %s at %d = %#x (table %s): %d bytes allocated for a %d byte file (budget %d)", cs.File, cs.Kind, cs.Off, cs.Val, cs.Tab, after-before, fileLen, budget))
 	}
 	r.Max("max_bytes_allocated_in_one_case", int64(after-before))
@@ -447,15 +450,28 @@ func (e *c09env) allocSite(b []byte) string {
 		out := map[string]int64{}
 		for _, rec := range recs[:n] {
 			frames := runtime.CallersFrames(rec.Stack())
+			site, layout := "", false
 			for {
 				fr, more := frames.Next()
 				if strings.HasPrefix(fr.Function, "github.com/go-text/typesetting/") {
-					out[strings.TrimPrefix(fr.Function, "github.com/go-text/typesetting/")] += rec.AllocBytes
-					break
+					f := strings.TrimPrefix(fr.Function, "github.com/go-text/typesetting/")
+					if site == "" {
+						site = f
+					}
+					switch f {
+					case "font/opentype/tables.ParseLayout", "font/opentype/tables.ParseGDEF", "font.newGSUB", "font.newGPOS":
+						layout = true
+					}
 				}
 				if !more {
 					break
 				}
+			}
+			if layout {
+				site = c09layoutClass
+			}
+			if site != "" {
+				out[site] += rec.AllocBytes
 			}
 		}
 		return out
@@ -708,7 +724,7 @@ func c09Replay(raw json.RawMessage, r *mc.Reporter) {
 func init() {
 	Register(&mc.Check{
 		ID: "C09", Level: "fault_enumeration",
-		Rule:        "for every single fault (8/16/32-bit field value, truncation, directory swap) on every corpus file: loading and the whole query surface and shaping return without panic, hang or worker death, allocating at most 64 MiB + 256 x len(file) bytes",
+		Rule:        "for every single fault (8/16/32-bit field value, truncation, directory swap) on every corpus file: loading and the whole query surface and shaping return without panic, hang or worker death, allocating at most min(64 MiB + 256 x len(file), 3 GiB) bytes",
 		Assumptions: []string{"one fault per file (pairs only as directory swaps)", "positions: whole file up to the tier's size bound, else container header, directory, first 64 bytes of every table and every table <= 256 bytes", "coverage-guided random mutation named by the property is sampling and is not part of this check", "time is bounded by the per-case watchdog only (no wall-clock proportionality oracle)"},
 		Shards:      c09Shards, Run: c09Run, Replay: c09Replay,
 		Watchdog: 120 * time.Second, MemLimit: 16 << 30,
